@@ -292,11 +292,18 @@ def c09_5(ctx):
               '#define accepts exactly the names the recogniser can find', dpat)
 
 
-RULES = [c09_1, c09_2, c09_3, c09_4, c09_5]
+def c09_predefined(ctx):
+    """Symbols "defined by the ISA configuration" are the list under predefined.symbols."""
+    from rules.shared import cfg_accessors
+    cfg_accessors(ctx, only=('predefined_symbols',))
+
+
+RULES = [c09_predefined, c09_1, c09_2, c09_3, c09_4, c09_5]
 
 _P = 'assembler/preprocessor/__init__.py'
 _F = 'assembler/line_object/factory.py'
 MUTANTS = [
+    V('c09-config-symbols-wrong-key', 'assembler/model/__init__.py', "            return self._config['predefined']['symbols']", "            return self._config['predefined']['constants']", 'CFG.1'),
     V('c09-str-replace', _P, '''                line_str = re.sub(
                     r'\\b' + re.escape(s) + r'\\b',
                     lambda m: replacement_str,
